@@ -31,6 +31,9 @@ def main():
             orig_init(self, *a, **k)
         pyrtl.WireVector.__init__ = noisy_init
     rng = random.Random(seed)
+    memmap = {}
+    copied = kind.endswith('+copy')
+    kind = kind[:-5] if copied else kind
     if kind == 'shared-enable':
         pyrtl.reset_working_block()
         we = Input(1, 'we')
@@ -54,6 +57,49 @@ def main():
         o2 <<= r
         blk = pyrtl.working_block()
         inputs = [we, ra] + ins
+    elif kind == 'same-name-mems':
+        # one helper instantiated several times: memories (and a ROM pair) that share their name
+        pyrtl.reset_working_block()
+        ins = []
+        acc = None
+        for k in range(rng.randint(2, 4)):
+            wa, wd, we, ra = Input(2, 'wa%d' % k), Input(8, 'wd%d' % k), Input(1, 'we%d' % k), Input(2, 'ra%d' % k)
+            ins += [wa, wd, we, ra]
+            m = MemBlock(8, 2, name='scratch', asynchronous=True)
+            m[wa] <<= MemBlock.EnabledWrite(wd, we)
+            memmap[m] = {a: rng.getrandbits(8) for a in range(4) if rng.random() < 0.7}
+            o = Output(8, 'rd%d' % k)
+            o <<= m[ra]
+            acc = m[ra] if acc is None else (acc ^ m[ra])
+        for k in range(2):
+            rom = pyrtl.RomBlock(8, 2, [rng.getrandbits(8) for _ in range(4)], name='table', asynchronous=True)
+            o = Output(8, 'rom%d' % k)
+            o <<= rom[ins[3][0:2]]
+        o = Output(8, 'all')
+        o <<= acc
+        blk = pyrtl.working_block()
+        inputs = ins
+    elif kind == 'blif':
+        # a netlist file with several bit-indexed input and output vectors, a latch and a sub-model, imported with
+        # vectors merged: the design (and every internal name it gets) is a function of the file only
+        nv = rng.randint(2, 4)
+        vecs = ['v%s' % chr(97 + i) for i in range(nv)]
+        wid = {v: rng.randint(2, 3) for v in vecs}
+        bits = [('%s[%d]' % (v, i)) for v in vecs for i in range(wid[v])]
+        order = list(bits)
+        rng.shuffle(order)
+        lines = ['.model top', '.inputs clk ' + ' '.join(order) + ' en', '.outputs y[0] y[1] z q']
+        for oname in ('y[0]', 'y[1]', 'z'):
+            ins_ = rng.sample(bits, 3)
+            lines += ['.names %s %s' % (' '.join(ins_), oname)] + ['%s 1' % ''.join(rng.choice('01-') for _ in ins_) for _ in range(2)]
+        lines += ['.names %s en d' % rng.choice(bits), '11 1', '.latch d q re clk 0', '.end']
+        text = '\n'.join(lines) + '\n'
+        pyrtl.reset_working_block()
+        import contextlib
+        with contextlib.redirect_stdout(io.StringIO()):
+            pyrtl.input_from_blif(text, merge_io_vectors=True)
+        blk = pyrtl.working_block()
+        inputs = sorted(blk.wirevector_subset(Input), key=lambda w_: w_.name)
     elif kind == 'names':
         # names that tie under a natural-sort key (x1 / x01, a / A) and several names the exporter must
         # sanitise: the emitted text must not depend on the order in which sets happen to iterate
@@ -85,6 +131,11 @@ def main():
                             ops=[o for o in gen.OPS_ALL if o != 'nand'])
         blk = d.block
         inputs = d.inputs
+    if copied:
+        # the same design after copy_block: names are kept, so every export must still be the same text
+        blk = pyrtl.copy_block(blk, update_working_block=False)
+        pyrtl.set_working_block(blk, no_sanity_check=True)
+        memmap = {blk.mem_map[m]: v for m, v in memmap.items()} if memmap else memmap
     steps = []
     for c in range(5):
         s = {}
@@ -98,7 +149,7 @@ def main():
             s[i.name] = v
         steps.append(s)
     out = {}
-    sim = pyrtl.Simulation(block=blk)
+    sim = pyrtl.Simulation(block=blk, memory_value_map=memmap or {})
     conflict = False
     wnets = sorted((n for n in blk.logic if n.op == '@'), key=str)
     for s in steps:
@@ -129,7 +180,7 @@ def main():
     buf = io.StringIO()
     sim.tracer.print_trace(buf)
     out['print_trace'] = buf.getvalue()
-    fs = pyrtl.FastSimulation(block=blk)
+    fs = pyrtl.FastSimulation(block=blk, memory_value_map=memmap or {})
     for s in steps:
         fs.step(dict(s))
     out['fasttrace'] = {k: v for k, v in sorted(fs.tracer.trace.items())}
